@@ -57,7 +57,7 @@ def gen_case(rng, tier):
         if rng.random() < 0.3:
             sel = {"t": "all"}
         obs = [list(p) for p in gfi.pick_subset(rng, paths, rng.choice(["none", "some", "one"]))]
-    c.update({"mode": mode, "sel": sel, "obs": obs, "step": rng.choice([0.05, 0.15, 0.4]), "L": rng.randint(1, 3),
+    c.update({"mode": mode, "sel": sel, "obs": obs, "max_states": 8 if tier == "quick" else 16, "step": rng.choice([0.05, 0.15, 0.4]), "L": rng.randint(1, 3),
               "key": rng.randint(0, 2**30), "rseed": rng.randint(0, 2**30), "nseed": rng.randint(0, 2**30)})
     return c
 
@@ -435,7 +435,7 @@ def mh_tree(case, gf, tr0, paths, S, viol, sig, probes):
         key = repr([(p, np.asarray(ref.get_path(ch, p)).tolist()) for p in sorted(S) if ref.get_path(ch, p) is not None])
         uniq.setdefault(key, (ch, lp))
     keys = sorted(uniq)
-    if len(keys) > 16 or len(keys) < 2:
+    if len(keys) > case.get("max_states", 16) or len(keys) < 2:
         probes["tree_skipped_size"] = 1
         return 0
     pi = np.array([math.exp(uniq[k][1]) for k in keys])
@@ -471,7 +471,9 @@ def mh_tree(case, gf, tr0, paths, S, viol, sig, probes):
             K[i, i] += P * (1 - a)
             # the implementation's own acceptance rule at this proposal: boundary runs
             if 1e-6 < a < 1 - 1e-6 and probes.get("boundary_runs", 0) < 6:
-                for u, want in ((a * 0.98, True), (min(a * 1.02, 1 - 1e-7), a * 1.02 >= 1)):
+                # just below the threshold: accept; just above (when representable below 1 in float32): reject
+                tests_ = [(a * 0.98, True)] + ([(a * 1.02, False)] if a * 1.02 < 1 - 1e-4 else [((a + 1.0) / 2.0, False)] if a < 1 - 1e-3 else [])
+                for u, want in tests_:
                     forced = _force_path(path)
                     got = run_scripted(lambda t: state(lambda tt: mh(tt, so))(t), _with_u(forced, u), trx)[0][1].get("accept")
                     probes["boundary_runs"] = probes.get("boundary_runs", 0) + 1
